@@ -2,6 +2,8 @@
 
 package service
 
+import "github.com/mdzio/go-mqtt/auth"
+
 // C09: the will is published exactly when a connection ends without DISCONNECT.
 // C10: clean and persistent sessions.
 
@@ -537,4 +539,106 @@ func H10_restored_before_first_answer() {
 	ans, ok := vrtParse(c.peerTake())
 	vrtAssert("C10.stream_wellformed", ok && len(ans) == 2)
 	vrtReach("C10.restored_before_first_answer")
+}
+
+// H10_requalify_resumed: a persistent session subscribes at QoS a, a resumed second connection
+// subscribes to the same filter again at QoS b (its SUBACK grants b), a third connection resumes the
+// session: deliveries on the second and on the third connection are at min(publish QoS, b) - what the
+// last SUBACK granted - and exactly once (round-7 change C01-13: a cached filter list of the session
+// kept the QoS of the first subscription, visible only on the third connection).
+func H10_requalify_resumed() {
+	b := vrtBroker("mockSuccess")
+	wit, _ := b.connect(vrtConnectPkt([]byte("wit"), true))
+	qa, qb := vrtByte("qos_first"), vrtByte("qos_second")
+	vrtAssume(vrtAnd(qa <= 2, qb <= 2))
+	qa, qb = vrtConcretizeByte(qa), vrtConcretizeByte(qb)
+	F := []byte("t1")
+	if vrtBool("wildcard") {
+		F = []byte("+")
+	}
+	c1, _ := b.connect(vrtConnectPkt([]byte("x"), false))
+	ans := vrtExchange(c1, &specPkt{Typ: specSUBSCRIBE, ID: 1, Topics: [][]byte{F, []byte("other")}, QoS: []byte{qa, 1}})
+	vrtAssert("C10.harness_suback", vrtBytesEq(ans, []byte{0x90, 4, 0, 1, qa, 1}))
+	vrtEnd(c1, vrtChoice("end1", 2))
+	c2, ack := b.connect(vrtConnectPkt([]byte("x"), false))
+	vrtAssert("C10.session_present_flag", vrtIsConnack(ack, true, 0))
+	ans = vrtExchange(c2, &specPkt{Typ: specSUBSCRIBE, ID: 2, Topics: [][]byte{F}, QoS: []byte{qb}})
+	vrtAssert("C10.harness_suback", vrtBytesEq(ans, []byte{0x90, 3, 0, 2, qb}))
+	check := func(c *vrtConn, tag string, id uint16) {
+		wit.peerTake()
+		vrtExchange(wit, &specPkt{Typ: specPUBLISH, Flags: 4, ID: id, Topic: []byte("t1"), Payload: []byte(tag)}, &specPkt{Typ: specPUBREL, Flags: 2, ID: id})
+		got, ok := vrtParse(c.peerTake())
+		vrtAssert("C10.requalified_subscription_delivers_once."+tag, ok && len(got) == 1 && got[0].Typ == specPUBLISH)
+		if ok && len(got) == 1 {
+			vrtAssert("C10.requalified_subscription_qos."+tag, (got[0].Flags>>1)&3 == qb)
+			vrtAssert("C10.requalified_subscription_content."+tag, vrtAnd(vrtBytesEq(got[0].Topic, []byte("t1")), vrtBytesEq(got[0].Payload, []byte(tag))))
+		}
+	}
+	check(c2, "second", 70)
+	vrtEnd(c2, vrtChoice("end2", 2))
+	c3, ack3 := b.connect(vrtConnectPkt([]byte("x"), false))
+	vrtAssert("C10.session_present_flag", vrtIsConnack(ack3, true, 0))
+	check(c3, "third", 71)
+	if qa != qb {
+		vrtReach("C10.requalified")
+	}
+}
+
+// H10_refused_connect: a CONNECT that is REFUSED (wrong credentials, under an authenticator whose verdict
+// depends on them) carries the client identifier of a stored persistent session - with the clean flag
+// set or not - or an identifier nobody used yet. Nothing of it may stick: the rightful client's next
+// CleanSession=0 CONNECT is answered SessionPresent=1 and its subscription still delivers; a first
+// accepted CONNECT of the fresh identifier is answered SessionPresent=0; the store holds what it held
+// (round-7 change C10-14 looked the session up before it asked the authenticator).
+func H10_refused_connect() {
+	if !vrtCredAuthRegistered {
+		auth.Register("vrtcred", vrtCredAuth{})
+		vrtCredAuthRegistered = true
+	}
+	b := vrtBroker("vrtcred")
+	withCred := func(p *specPkt, good bool) *specPkt {
+		p.CFlags |= 0xC0
+		p.User, p.Pass = []byte("u"), []byte("p")
+		if !good {
+			p.Pass = []byte("q")
+		}
+		return p
+	}
+	wit, _ := b.connect(withCred(vrtConnectPkt([]byte("wit"), true), true))
+	c1, ack1 := b.connect(withCred(vrtConnectPkt([]byte("x"), false), true))
+	vrtAssert("C10.session_present_flag", vrtIsConnack(ack1, false, 0))
+	vrtExchange(c1, &specPkt{Typ: specSUBSCRIBE, ID: 1, Topics: [][]byte{[]byte("t1")}, QoS: []byte{1}})
+	stillConnected := vrtBool("owner_still_connected")
+	if !stillConnected {
+		vrtEnd(c1, vrtChoice("end1", 2))
+	}
+	before := b.svr.sessMgr.Count()
+	// the refused CONNECT: same identifier (clean or not) or a fresh one
+	id := []byte("x")
+	fresh := vrtBool("fresh_identifier")
+	if fresh {
+		id = []byte("y")
+	}
+	bad, ackb := b.connect(withCred(vrtConnectPkt(id, vrtBool("refused_clean")), false))
+	vrtAssert("C10.harness_refused", vrtIsConnack(ackb, false, 4))
+	vrtAssert("C10.refused_closed", bad.isClosed())
+	vrtAssert("C10.refused_connect_leaves_the_store_alone", b.svr.sessMgr.Count() == before)
+	if stillConnected {
+		// the owner's live connection is untouched
+		vrtExchange(wit, &specPkt{Typ: specPUBLISH, Flags: 2, ID: 9, Topic: []byte("t1"), Payload: []byte("l")})
+		got, ok := vrtParse(c1.peerTake())
+		vrtAssert("C10.live_subscription_survives_refused_connect", ok && len(got) == 1 && !c1.isClosed())
+		vrtEnd(c1, vrtChoice("end1", 2))
+	}
+	wit.peerTake()
+	c2, ack2 := b.connect(withCred(vrtConnectPkt([]byte("x"), false), true))
+	vrtAssert("C10.session_present_flag", vrtIsConnack(ack2, true, 0))
+	vrtExchange(wit, &specPkt{Typ: specPUBLISH, Flags: 2, ID: 10, Topic: []byte("t1"), Payload: []byte("r")})
+	got, ok := vrtParse(c2.peerTake())
+	vrtAssert("C10.restored_subscription_delivers", ok && len(got) == 1)
+	if fresh {
+		_, ack3 := b.connect(withCred(vrtConnectPkt([]byte("y"), false), true))
+		vrtAssert("C10.session_present_flag", vrtIsConnack(ack3, false, 0))
+	}
+	vrtReach("C10.refused_connect")
 }
